@@ -503,5 +503,468 @@ theorem jump_K_rel :
 end jumps
 
 
+section kissel2
+variable (T : Tables ℝ) (Z m : Int) (hZ : inI32 Z) (hm : inI32 m) (E : ℝ)
+include hZ hm
+
+
+/-- what a value of the Java `CSb_Photo_Partial` tells about its arguments -/
+theorem java_ok_CSb_Photo_Partial {v : ℝ} (h : JGen.CSb_Photo_Partial (JTables.ofC T) Z m E = .ok v) :
+    ¬(Z < 1 ∨ Z > 120) ∧ ¬(m < 0 ∨ m ≥ 31) ∧ ¬ (T.Electron_Config_Kissel Z.toNat m.toNat < 1.0e-6) := by
+  unfold JGen.CSb_Photo_Partial at h
+  jeq_normJ
+  by_cases hz : Z < 1 ∨ Z > 120
+  · simp only [hz, ↓reduceIte, jthrow_eq_error] at h; cases h
+  by_cases hsh : m < 0 ∨ m ≥ 31
+  · simp only [hz, hsh, ↓reduceIte, jthrow_eq_error] at h; cases h
+  refine ⟨hz, hsh, ?_⟩
+  intro hc
+  by_cases hE : E ≤ 0.0
+  · simp only [hz, hsh, hE, ↓reduceIte, jthrow_eq_error] at h; cases h
+  simp only [hz, hsh, hE, ↓reduceIte] at h
+  have e1 : wrapI (wrapI (Z * 31) + m) = Z * 31 + m := by rw [wrapI_eq (x := Z * 31) (by omega) (by omega), wrapI_eq (by omega) (by omega)]
+  rw [e1, jrd_flat2 _ _ _ _ _ _ _ (by omega) (by omega) (by omega) (by omega) (by omega)] at h
+  rw [jbind_ok] at h
+  simp only [hc, ↓reduceIte] at h
+  rw [jpure_eq_ok, jbind_ok] at h
+  simp only [↓reduceIte, jthrow_eq_error] at h
+  cases h
+
+/-- a value of the Java `CS_Photo_Partial` is never 0 (the test the C cascade helpers make) -/
+theorem java_nz_CS_Photo_Partial {v : ℝ} (h : JGen.CS_Photo_Partial (JTables.ofC T) Z m E = .ok v) : v ≠ 0 := by
+  unfold JGen.CS_Photo_Partial at h
+  rcases hj : JGen.CSb_Photo_Partial (JTables.ofC T) Z m E with e | r
+  · rw [hj] at h; cases h
+  · obtain ⟨hz, hsh, hc⟩ := java_ok_CSb_Photo_Partial T Z m hZ hm E hj
+    have hr := java_pos_CSb_Photo_Partial T Z m hZ hm E r hj
+    rw [hj] at h
+    jeq_normJ
+    simp (disch := omega) only [jbind_ok, jpure_eq_ok, wrapI_eq, jrd_flat2, jrd_vec, jdiv_real] at h
+    by_cases haw : T.AtomicWeight_arr Z.toNat = 0
+    · simp only [haw, ↓reduceIte] at h; cases h
+    · simp only [haw, ↓reduceIte] at h
+      cases h
+      have hc0 : T.Electron_Config_Kissel Z.toNat m.toNat ≠ 0 := by
+        intro h0; rw [h0] at hc; norm_num at hc
+      exact div_ne_zero (mul_ne_zero (mul_ne_zero hr.ne' hc0) (by norm_num)) haw
+
+theorem java_rng_CS_Photo_Partial {v : ℝ} (h : JGen.CS_Photo_Partial (JTables.ofC T) Z m E = .ok v) : ¬(Z < 1 ∨ Z > 120) := by
+  unfold JGen.CS_Photo_Partial at h
+  rcases hj : JGen.CSb_Photo_Partial (JTables.ofC T) Z m E with e | r
+  · rw [hj] at h; cases h
+  · exact (java_ok_CSb_Photo_Partial T Z m hZ hm E hj).1
+end kissel2
+
+/-- the C accessor returns (never stops): leaves of the case analysis -/
+macro "ctotal_auto" : tactic =>
+  `(tactic| (
+    (try jeq_simp)
+    repeat' (first
+      | exact ⟨_, rfl⟩
+      | omega
+      | (simp only [wrapI] at *; omega)
+      | (split_ifs <;> (try jeq_simp)))))
+
+section totals
+variable (T : Tables ℝ) (Z m : Int) (hZ : inI32 Z) (hm : inI32 m)
+include hZ hm
+
+theorem c_total_FluorYield : ∃ r, Gen.FluorYield T Z m Slot.null = .ok r := by
+  unfold Gen.FluorYield; jeq_normJ; ctotal_auto
+theorem c_total_CosKronTransProb : ∃ r, Gen.CosKronTransProb T Z m Slot.null = .ok r := by
+  unfold Gen.CosKronTransProb; jeq_normJ; ctotal_auto
+theorem c_total_EdgeEnergy : ∃ r, Gen.EdgeEnergy T Z m Slot.null = .ok r := by
+  unfold Gen.EdgeEnergy; jeq_normJ; ctotal_auto
+theorem c_total_JumpFactor : ∃ r, Gen.JumpFactor T Z m Slot.null = .ok r := by
+  unfold Gen.JumpFactor; jeq_normJ; ctotal_auto
+theorem c_total_RadRate : ∃ r, Gen.RadRate T Z m Slot.null = .ok r := by
+  unfold Gen.RadRate FUEL Gen.RadRate_fuel; jeq_normJ
+  by_cases hz : Z < 1 ∨ Z > 120
+  · ctotal_auto
+  by_cases h1 : m = 1
+  · subst h1
+    jeq_simp
+    unfold Gen.RadRate_fuel
+    simp only [loopM_3]
+    ctotal_auto
+  · simp only [loopM_3]
+    ctotal_auto
+
+theorem catchT_FluorYield : ∃ v, Gen.FluorYield T Z m Slot.null = .ok (v, Slot.null) ∧ JGen.FluorYield_catch (JTables.ofC T) Z m = .ok v := by
+  obtain ⟨r, hr⟩ := c_total_FluorYield T Z m hZ hm
+  rcases (catch_FluorYield T Z m hZ hm).cases with h | ⟨a, b, hc, _⟩ | ⟨a, hc⟩
+  · exact h
+  · rw [hc] at hr; cases hr
+  · rw [hc] at hr; cases hr
+theorem catchT_CosKronTransProb : ∃ v, Gen.CosKronTransProb T Z m Slot.null = .ok (v, Slot.null) ∧ JGen.CosKronTransProb_catch (JTables.ofC T) Z m = .ok v := by
+  obtain ⟨r, hr⟩ := c_total_CosKronTransProb T Z m hZ hm
+  rcases (catch_CosKronTransProb T Z m hZ hm).cases with h | ⟨a, b, hc, _⟩ | ⟨a, hc⟩
+  · exact h
+  · rw [hc] at hr; cases hr
+  · rw [hc] at hr; cases hr
+theorem catchT_EdgeEnergy : ∃ v, Gen.EdgeEnergy T Z m Slot.null = .ok (v, Slot.null) ∧ JGen.EdgeEnergy_catch (JTables.ofC T) Z m = .ok v := by
+  obtain ⟨r, hr⟩ := c_total_EdgeEnergy T Z m hZ hm
+  rcases (catch_EdgeEnergy T Z m hZ hm).cases with h | ⟨a, b, hc, _⟩ | ⟨a, hc⟩
+  · exact h
+  · rw [hc] at hr; cases hr
+  · rw [hc] at hr; cases hr
+theorem catchT_JumpFactor : ∃ v, Gen.JumpFactor T Z m Slot.null = .ok (v, Slot.null) ∧ JGen.JumpFactor_catch (JTables.ofC T) Z m = .ok v := by
+  obtain ⟨r, hr⟩ := c_total_JumpFactor T Z m hZ hm
+  rcases (catch_JumpFactor T Z m hZ hm).cases with h | ⟨a, b, hc, _⟩ | ⟨a, hc⟩
+  · exact h
+  · rw [hc] at hr; cases hr
+  · rw [hc] at hr; cases hr
+theorem catchT_RadRate : ∃ v, Gen.RadRate T Z m Slot.null = .ok (v, Slot.null) ∧ JGen.RadRate_catch (JTables.ofC T) Z m = .ok v := by
+  obtain ⟨r, hr⟩ := c_total_RadRate T Z m hZ hm
+  rcases (catch_RadRate T Z m hZ hm).cases with h | ⟨a, b, hc, _⟩ | ⟨a, hc⟩
+  · exact h
+  · rw [hc] at hr; cases hr
+  · rw [hc] at hr; cases hr
+end totals
+
+/-- bring the value-or-zero fact of an accessor call into the context -/
+macro "jeq_have_catch" t:term : tactic => `(tactic| obtain ⟨v, hc, hj⟩ := $t)
+
+/-- well-formedness of the Kissel vectors of sub-shell `k` of element `Z`: the counts are `int`s and equal the vector lengths -/
+def KVecOk (T : Tables ℝ) (Z k : Int) : Prop :=
+  inI32 (T.NE_Photo_Partial_Kissel Z.toNat k.toNat) ∧
+  (T.E_Photo_Partial_Kissel Z.toNat k.toNat).len = T.NE_Photo_Partial_Kissel Z.toNat k.toNat ∧
+  (T.Photo_Partial_Kissel Z.toNat k.toNat).len = T.NE_Photo_Partial_Kissel Z.toNat k.toNat
+
+section phelpers
+variable (T : Tables ℝ) (Z : Int) (hZ : inI32 Z) (E PK PL1 PL2 PL3 PM1 PM2 PM3 PM4 : ℝ) (s : Slot) (hs : s.isFull = false)
+include hZ hs
+
+/-- use the theorem of `CS_Photo_Partial` for sub-shell `k` (< 28) inside a cascade helper -/
+macro "jeq_use_partial" k:num "," hk:ident : tactic =>
+  `(tactic| (rcases (JRel.cases (java_eq_c_CS_Photo_Partial T Z $k hZ (by decide) E s hs ($hk).1 ($hk).2.1 ($hk).2.2 (Or.inl (by decide))))
+      with ⟨v, hc, hj⟩ | ⟨e, hc, hj⟩ | ⟨a, b, hc, hj⟩ | ⟨a, hc⟩ <;>
+      [(have hne := java_nz_CS_Photo_Partial T Z $k hZ (by decide) E hj; have hrng := java_rng_CS_Photo_Partial T Z $k hZ (by decide) E hj); (jeq_auto; done); (jeq_auto; done); (jeq_auto; done)]))
+
+theorem java_eq_c_PL1_pure_kissel (h1 : KVecOk T Z 1) :
+    JRel (JGen.PL1_pure_kissel (JTables.ofC T) Z E) (Gen.PL1_pure_kissel T Z E s) s := by
+  jeq_start JGen.PL1_pure_kissel Gen.PL1_pure_kissel
+  jeq_use_partial 1, h1
+  jeq_auto
+
+theorem java_eq_c_PL2_pure_kissel (h2 : KVecOk T Z 2) :
+    JRel (JGen.PL2_pure_kissel (JTables.ofC T) Z E PL1) (Gen.PL2_pure_kissel T Z E PL1 s) s := by
+  jeq_start JGen.PL2_pure_kissel Gen.PL2_pure_kissel
+  jeq_use_partial 2, h2
+  jeq_have_catch (catchT_CosKronTransProb T Z 1 hZ (by decide))
+  jeq_auto
+
+theorem java_eq_c_PL1_rad_cascade_kissel (h1 : KVecOk T Z 1) :
+    JRel (JGen.PL1_rad_cascade_kissel (JTables.ofC T) Z E PK) (Gen.PL1_rad_cascade_kissel T Z E PK s) s := by
+  jeq_start JGen.PL1_rad_cascade_kissel Gen.PL1_rad_cascade_kissel
+  jeq_use_partial 1, h1
+  jeq_have_catch (catchT_FluorYield T Z 0 hZ (by decide))
+  jeq_have_catch (catchT_RadRate T Z (-1) hZ (by decide))
+  jeq_auto
+
+theorem java_eq_c_PL1_full_cascade_kissel (h1 : KVecOk T Z 1) :
+    JRel (JGen.PL1_full_cascade_kissel (JTables.ofC T) Z E PK) (Gen.PL1_full_cascade_kissel T Z E PK s) s := by
+  jeq_start JGen.PL1_full_cascade_kissel Gen.PL1_full_cascade_kissel JGen.get_kissel_offset
+  jeq_use_partial 1, h1
+  jeq_pure
+  jeq_auto
+theorem java_eq_c_PL1_auger_cascade_kissel (hk : KVecOk T Z 1) :
+    JRel (JGen.PL1_auger_cascade_kissel (JTables.ofC T) Z E PK) (Gen.PL1_auger_cascade_kissel T Z E PK s) s := by
+  jeq_start JGen.PL1_auger_cascade_kissel Gen.PL1_auger_cascade_kissel JGen.get_kissel_offset
+  jeq_use_partial 1, hk
+  jeq_pure
+  jeq_auto
+
+theorem java_eq_c_PL2_rad_cascade_kissel (hk : KVecOk T Z 2) :
+    JRel (JGen.PL2_rad_cascade_kissel (JTables.ofC T) Z E PK PL1) (Gen.PL2_rad_cascade_kissel T Z E PK PL1 s) s := by
+  jeq_start JGen.PL2_rad_cascade_kissel Gen.PL2_rad_cascade_kissel
+  jeq_use_partial 2, hk
+  jeq_have_catch (catchT_FluorYield T Z 0 hZ (by decide))
+  jeq_have_catch (catchT_RadRate T Z (-2) hZ (by decide))
+  jeq_have_catch (catchT_CosKronTransProb T Z 1 hZ (by decide))
+  jeq_pure
+  jeq_auto
+
+theorem java_eq_c_PL2_auger_cascade_kissel (hk : KVecOk T Z 2) :
+    JRel (JGen.PL2_auger_cascade_kissel (JTables.ofC T) Z E PK PL1) (Gen.PL2_auger_cascade_kissel T Z E PK PL1 s) s := by
+  jeq_start JGen.PL2_auger_cascade_kissel Gen.PL2_auger_cascade_kissel JGen.get_kissel_offset
+  jeq_use_partial 2, hk
+  jeq_have_catch (catchT_CosKronTransProb T Z 1 hZ (by decide))
+  jeq_pure
+  jeq_auto
+
+theorem java_eq_c_PL2_full_cascade_kissel (hk : KVecOk T Z 2) :
+    JRel (JGen.PL2_full_cascade_kissel (JTables.ofC T) Z E PK PL1) (Gen.PL2_full_cascade_kissel T Z E PK PL1 s) s := by
+  jeq_start JGen.PL2_full_cascade_kissel Gen.PL2_full_cascade_kissel JGen.get_kissel_offset
+  jeq_use_partial 2, hk
+  jeq_have_catch (catchT_CosKronTransProb T Z 1 hZ (by decide))
+  jeq_pure
+  jeq_auto
+
+theorem java_eq_c_PL3_pure_kissel (hk : KVecOk T Z 3) :
+    JRel (JGen.PL3_pure_kissel (JTables.ofC T) Z E PL1 PL2) (Gen.PL3_pure_kissel T Z E PL1 PL2 s) s := by
+  jeq_start JGen.PL3_pure_kissel Gen.PL3_pure_kissel
+  jeq_use_partial 3, hk
+  jeq_have_catch (catchT_CosKronTransProb T Z 2 hZ (by decide))
+  jeq_have_catch (catchT_CosKronTransProb T Z 3 hZ (by decide))
+  jeq_have_catch (catchT_CosKronTransProb T Z 4 hZ (by decide))
+  jeq_pure
+  jeq_auto
+
+theorem java_eq_c_PL3_rad_cascade_kissel (hk : KVecOk T Z 3) :
+    JRel (JGen.PL3_rad_cascade_kissel (JTables.ofC T) Z E PK PL1 PL2) (Gen.PL3_rad_cascade_kissel T Z E PK PL1 PL2 s) s := by
+  jeq_start JGen.PL3_rad_cascade_kissel Gen.PL3_rad_cascade_kissel
+  jeq_use_partial 3, hk
+  jeq_have_catch (catchT_FluorYield T Z 0 hZ (by decide))
+  jeq_have_catch (catchT_RadRate T Z (-3) hZ (by decide))
+  jeq_have_catch (catchT_CosKronTransProb T Z 2 hZ (by decide))
+  jeq_have_catch (catchT_CosKronTransProb T Z 3 hZ (by decide))
+  jeq_have_catch (catchT_CosKronTransProb T Z 4 hZ (by decide))
+  jeq_pure
+  jeq_auto
+
+theorem java_eq_c_PL3_auger_cascade_kissel (hk : KVecOk T Z 3) :
+    JRel (JGen.PL3_auger_cascade_kissel (JTables.ofC T) Z E PK PL1 PL2) (Gen.PL3_auger_cascade_kissel T Z E PK PL1 PL2 s) s := by
+  jeq_start JGen.PL3_auger_cascade_kissel Gen.PL3_auger_cascade_kissel JGen.get_kissel_offset
+  jeq_use_partial 3, hk
+  jeq_have_catch (catchT_CosKronTransProb T Z 2 hZ (by decide))
+  jeq_have_catch (catchT_CosKronTransProb T Z 3 hZ (by decide))
+  jeq_have_catch (catchT_CosKronTransProb T Z 4 hZ (by decide))
+  jeq_pure
+  jeq_auto
+
+theorem java_eq_c_PL3_full_cascade_kissel (hk : KVecOk T Z 3) :
+    JRel (JGen.PL3_full_cascade_kissel (JTables.ofC T) Z E PK PL1 PL2) (Gen.PL3_full_cascade_kissel T Z E PK PL1 PL2 s) s := by
+  jeq_start JGen.PL3_full_cascade_kissel Gen.PL3_full_cascade_kissel JGen.get_kissel_offset
+  jeq_use_partial 3, hk
+  jeq_have_catch (catchT_CosKronTransProb T Z 2 hZ (by decide))
+  jeq_have_catch (catchT_CosKronTransProb T Z 3 hZ (by decide))
+  jeq_have_catch (catchT_CosKronTransProb T Z 4 hZ (by decide))
+  jeq_pure
+  jeq_auto
+
+theorem java_eq_c_PM1_pure_kissel (hk : KVecOk T Z 4) :
+    JRel (JGen.PM1_pure_kissel (JTables.ofC T) Z E) (Gen.PM1_pure_kissel T Z E s) s := by
+  jeq_start JGen.PM1_pure_kissel Gen.PM1_pure_kissel
+  jeq_use_partial 4, hk
+  jeq_pure
+  jeq_auto
+
+theorem java_eq_c_PM1_rad_cascade_kissel (hk : KVecOk T Z 4) :
+    JRel (JGen.PM1_rad_cascade_kissel (JTables.ofC T) Z E PK PL1 PL2 PL3) (Gen.PM1_rad_cascade_kissel T Z E PK PL1 PL2 PL3 s) s := by
+  jeq_start JGen.PM1_rad_cascade_kissel Gen.PM1_rad_cascade_kissel
+  jeq_use_partial 4, hk
+  jeq_have_catch (catchT_FluorYield T Z 0 hZ (by decide))
+  jeq_have_catch (catchT_RadRate T Z (-4) hZ (by decide))
+  jeq_have_catch (catchT_FluorYield T Z 1 hZ (by decide))
+  jeq_have_catch (catchT_RadRate T Z (-32) hZ (by decide))
+  jeq_have_catch (catchT_FluorYield T Z 2 hZ (by decide))
+  jeq_have_catch (catchT_RadRate T Z (-60) hZ (by decide))
+  jeq_have_catch (catchT_FluorYield T Z 3 hZ (by decide))
+  jeq_have_catch (catchT_RadRate T Z (-86) hZ (by decide))
+  jeq_pure
+  jeq_auto
+
+theorem java_eq_c_PM1_auger_cascade_kissel (hk : KVecOk T Z 4) :
+    JRel (JGen.PM1_auger_cascade_kissel (JTables.ofC T) Z E PK PL1 PL2 PL3) (Gen.PM1_auger_cascade_kissel T Z E PK PL1 PL2 PL3 s) s := by
+  jeq_start JGen.PM1_auger_cascade_kissel Gen.PM1_auger_cascade_kissel JGen.get_kissel_offset
+  jeq_use_partial 4, hk
+  jeq_pure
+  jeq_auto
+
+theorem java_eq_c_PM1_full_cascade_kissel (hk : KVecOk T Z 4) :
+    JRel (JGen.PM1_full_cascade_kissel (JTables.ofC T) Z E PK PL1 PL2 PL3) (Gen.PM1_full_cascade_kissel T Z E PK PL1 PL2 PL3 s) s := by
+  jeq_start JGen.PM1_full_cascade_kissel Gen.PM1_full_cascade_kissel JGen.get_kissel_offset
+  jeq_use_partial 4, hk
+  jeq_pure
+  jeq_auto
+
+theorem java_eq_c_PM2_pure_kissel (hk : KVecOk T Z 5) :
+    JRel (JGen.PM2_pure_kissel (JTables.ofC T) Z E PM1) (Gen.PM2_pure_kissel T Z E PM1 s) s := by
+  jeq_start JGen.PM2_pure_kissel Gen.PM2_pure_kissel
+  jeq_use_partial 5, hk
+  jeq_have_catch (catchT_CosKronTransProb T Z 5 hZ (by decide))
+  jeq_pure
+  jeq_auto
+
+theorem java_eq_c_PM2_rad_cascade_kissel (hk : KVecOk T Z 5) :
+    JRel (JGen.PM2_rad_cascade_kissel (JTables.ofC T) Z E PK PL1 PL2 PL3 PM1) (Gen.PM2_rad_cascade_kissel T Z E PK PL1 PL2 PL3 PM1 s) s := by
+  jeq_start JGen.PM2_rad_cascade_kissel Gen.PM2_rad_cascade_kissel
+  jeq_use_partial 5, hk
+  jeq_have_catch (catchT_FluorYield T Z 0 hZ (by decide))
+  jeq_have_catch (catchT_RadRate T Z (-5) hZ (by decide))
+  jeq_have_catch (catchT_FluorYield T Z 1 hZ (by decide))
+  jeq_have_catch (catchT_RadRate T Z (-33) hZ (by decide))
+  jeq_have_catch (catchT_FluorYield T Z 2 hZ (by decide))
+  jeq_have_catch (catchT_RadRate T Z (-61) hZ (by decide))
+  jeq_have_catch (catchT_FluorYield T Z 3 hZ (by decide))
+  jeq_have_catch (catchT_RadRate T Z (-87) hZ (by decide))
+  jeq_have_catch (catchT_CosKronTransProb T Z 5 hZ (by decide))
+  jeq_pure
+  jeq_auto
+
+theorem java_eq_c_PM2_auger_cascade_kissel (hk : KVecOk T Z 5) :
+    JRel (JGen.PM2_auger_cascade_kissel (JTables.ofC T) Z E PK PL1 PL2 PL3 PM1) (Gen.PM2_auger_cascade_kissel T Z E PK PL1 PL2 PL3 PM1 s) s := by
+  jeq_start JGen.PM2_auger_cascade_kissel Gen.PM2_auger_cascade_kissel JGen.get_kissel_offset
+  jeq_use_partial 5, hk
+  jeq_have_catch (catchT_CosKronTransProb T Z 5 hZ (by decide))
+  jeq_pure
+  jeq_auto
+
+theorem java_eq_c_PM2_full_cascade_kissel (hk : KVecOk T Z 5) :
+    JRel (JGen.PM2_full_cascade_kissel (JTables.ofC T) Z E PK PL1 PL2 PL3 PM1) (Gen.PM2_full_cascade_kissel T Z E PK PL1 PL2 PL3 PM1 s) s := by
+  jeq_start JGen.PM2_full_cascade_kissel Gen.PM2_full_cascade_kissel JGen.get_kissel_offset
+  jeq_use_partial 5, hk
+  jeq_have_catch (catchT_CosKronTransProb T Z 5 hZ (by decide))
+  jeq_pure
+  jeq_auto
+
+theorem java_eq_c_PM3_pure_kissel (hk : KVecOk T Z 6) :
+    JRel (JGen.PM3_pure_kissel (JTables.ofC T) Z E PM1 PM2) (Gen.PM3_pure_kissel T Z E PM1 PM2 s) s := by
+  jeq_start JGen.PM3_pure_kissel Gen.PM3_pure_kissel
+  jeq_use_partial 6, hk
+  jeq_have_catch (catchT_CosKronTransProb T Z 6 hZ (by decide))
+  jeq_have_catch (catchT_CosKronTransProb T Z 9 hZ (by decide))
+  jeq_pure
+  jeq_auto
+
+theorem java_eq_c_PM3_rad_cascade_kissel (hk : KVecOk T Z 6) :
+    JRel (JGen.PM3_rad_cascade_kissel (JTables.ofC T) Z E PK PL1 PL2 PL3 PM1 PM2) (Gen.PM3_rad_cascade_kissel T Z E PK PL1 PL2 PL3 PM1 PM2 s) s := by
+  jeq_start JGen.PM3_rad_cascade_kissel Gen.PM3_rad_cascade_kissel
+  jeq_use_partial 6, hk
+  jeq_have_catch (catchT_FluorYield T Z 0 hZ (by decide))
+  jeq_have_catch (catchT_RadRate T Z (-6) hZ (by decide))
+  jeq_have_catch (catchT_FluorYield T Z 1 hZ (by decide))
+  jeq_have_catch (catchT_RadRate T Z (-34) hZ (by decide))
+  jeq_have_catch (catchT_FluorYield T Z 2 hZ (by decide))
+  jeq_have_catch (catchT_RadRate T Z (-62) hZ (by decide))
+  jeq_have_catch (catchT_FluorYield T Z 3 hZ (by decide))
+  jeq_have_catch (catchT_RadRate T Z (-88) hZ (by decide))
+  jeq_have_catch (catchT_CosKronTransProb T Z 6 hZ (by decide))
+  jeq_have_catch (catchT_CosKronTransProb T Z 9 hZ (by decide))
+  jeq_pure
+  jeq_auto
+
+theorem java_eq_c_PM3_auger_cascade_kissel (hk : KVecOk T Z 6) :
+    JRel (JGen.PM3_auger_cascade_kissel (JTables.ofC T) Z E PK PL1 PL2 PL3 PM1 PM2) (Gen.PM3_auger_cascade_kissel T Z E PK PL1 PL2 PL3 PM1 PM2 s) s := by
+  jeq_start JGen.PM3_auger_cascade_kissel Gen.PM3_auger_cascade_kissel JGen.get_kissel_offset
+  jeq_use_partial 6, hk
+  jeq_have_catch (catchT_CosKronTransProb T Z 6 hZ (by decide))
+  jeq_have_catch (catchT_CosKronTransProb T Z 9 hZ (by decide))
+  jeq_pure
+  jeq_auto
+
+theorem java_eq_c_PM3_full_cascade_kissel (hk : KVecOk T Z 6) :
+    JRel (JGen.PM3_full_cascade_kissel (JTables.ofC T) Z E PK PL1 PL2 PL3 PM1 PM2) (Gen.PM3_full_cascade_kissel T Z E PK PL1 PL2 PL3 PM1 PM2 s) s := by
+  jeq_start JGen.PM3_full_cascade_kissel Gen.PM3_full_cascade_kissel JGen.get_kissel_offset
+  jeq_use_partial 6, hk
+  jeq_have_catch (catchT_CosKronTransProb T Z 6 hZ (by decide))
+  jeq_have_catch (catchT_CosKronTransProb T Z 9 hZ (by decide))
+  jeq_pure
+  jeq_auto
+
+theorem java_eq_c_PM4_pure_kissel (hk : KVecOk T Z 7) :
+    JRel (JGen.PM4_pure_kissel (JTables.ofC T) Z E PM1 PM2 PM3) (Gen.PM4_pure_kissel T Z E PM1 PM2 PM3 s) s := by
+  jeq_start JGen.PM4_pure_kissel Gen.PM4_pure_kissel
+  jeq_use_partial 7, hk
+  jeq_have_catch (catchT_CosKronTransProb T Z 7 hZ (by decide))
+  jeq_have_catch (catchT_CosKronTransProb T Z 10 hZ (by decide))
+  jeq_have_catch (catchT_CosKronTransProb T Z 12 hZ (by decide))
+  jeq_pure
+  jeq_auto
+
+theorem java_eq_c_PM4_rad_cascade_kissel (hk : KVecOk T Z 7) :
+    JRel (JGen.PM4_rad_cascade_kissel (JTables.ofC T) Z E PK PL1 PL2 PL3 PM1 PM2 PM3) (Gen.PM4_rad_cascade_kissel T Z E PK PL1 PL2 PL3 PM1 PM2 PM3 s) s := by
+  jeq_start JGen.PM4_rad_cascade_kissel Gen.PM4_rad_cascade_kissel
+  jeq_use_partial 7, hk
+  jeq_have_catch (catchT_FluorYield T Z 0 hZ (by decide))
+  jeq_have_catch (catchT_RadRate T Z (-7) hZ (by decide))
+  jeq_have_catch (catchT_FluorYield T Z 1 hZ (by decide))
+  jeq_have_catch (catchT_RadRate T Z (-35) hZ (by decide))
+  jeq_have_catch (catchT_FluorYield T Z 2 hZ (by decide))
+  jeq_have_catch (catchT_RadRate T Z (-63) hZ (by decide))
+  jeq_have_catch (catchT_FluorYield T Z 3 hZ (by decide))
+  jeq_have_catch (catchT_RadRate T Z (-89) hZ (by decide))
+  jeq_have_catch (catchT_CosKronTransProb T Z 7 hZ (by decide))
+  jeq_have_catch (catchT_CosKronTransProb T Z 10 hZ (by decide))
+  jeq_have_catch (catchT_CosKronTransProb T Z 12 hZ (by decide))
+  jeq_pure
+  jeq_auto
+
+theorem java_eq_c_PM4_auger_cascade_kissel (hk : KVecOk T Z 7) :
+    JRel (JGen.PM4_auger_cascade_kissel (JTables.ofC T) Z E PK PL1 PL2 PL3 PM1 PM2 PM3) (Gen.PM4_auger_cascade_kissel T Z E PK PL1 PL2 PL3 PM1 PM2 PM3 s) s := by
+  jeq_start JGen.PM4_auger_cascade_kissel Gen.PM4_auger_cascade_kissel JGen.get_kissel_offset
+  jeq_use_partial 7, hk
+  jeq_have_catch (catchT_CosKronTransProb T Z 7 hZ (by decide))
+  jeq_have_catch (catchT_CosKronTransProb T Z 10 hZ (by decide))
+  jeq_have_catch (catchT_CosKronTransProb T Z 12 hZ (by decide))
+  jeq_pure
+  jeq_auto
+
+theorem java_eq_c_PM4_full_cascade_kissel (hk : KVecOk T Z 7) :
+    JRel (JGen.PM4_full_cascade_kissel (JTables.ofC T) Z E PK PL1 PL2 PL3 PM1 PM2 PM3) (Gen.PM4_full_cascade_kissel T Z E PK PL1 PL2 PL3 PM1 PM2 PM3 s) s := by
+  jeq_start JGen.PM4_full_cascade_kissel Gen.PM4_full_cascade_kissel JGen.get_kissel_offset
+  jeq_use_partial 7, hk
+  jeq_have_catch (catchT_CosKronTransProb T Z 7 hZ (by decide))
+  jeq_have_catch (catchT_CosKronTransProb T Z 10 hZ (by decide))
+  jeq_have_catch (catchT_CosKronTransProb T Z 12 hZ (by decide))
+  jeq_pure
+  jeq_auto
+
+theorem java_eq_c_PM5_pure_kissel (hk : KVecOk T Z 8) :
+    JRel (JGen.PM5_pure_kissel (JTables.ofC T) Z E PM1 PM2 PM3 PM4) (Gen.PM5_pure_kissel T Z E PM1 PM2 PM3 PM4 s) s := by
+  jeq_start JGen.PM5_pure_kissel Gen.PM5_pure_kissel
+  jeq_use_partial 8, hk
+  jeq_have_catch (catchT_CosKronTransProb T Z 8 hZ (by decide))
+  jeq_have_catch (catchT_CosKronTransProb T Z 11 hZ (by decide))
+  jeq_have_catch (catchT_CosKronTransProb T Z 13 hZ (by decide))
+  jeq_have_catch (catchT_CosKronTransProb T Z 14 hZ (by decide))
+  jeq_pure
+  jeq_auto
+
+theorem java_eq_c_PM5_rad_cascade_kissel (hk : KVecOk T Z 8) :
+    JRel (JGen.PM5_rad_cascade_kissel (JTables.ofC T) Z E PK PL1 PL2 PL3 PM1 PM2 PM3 PM4) (Gen.PM5_rad_cascade_kissel T Z E PK PL1 PL2 PL3 PM1 PM2 PM3 PM4 s) s := by
+  jeq_start JGen.PM5_rad_cascade_kissel Gen.PM5_rad_cascade_kissel
+  jeq_use_partial 8, hk
+  jeq_have_catch (catchT_FluorYield T Z 0 hZ (by decide))
+  jeq_have_catch (catchT_RadRate T Z (-8) hZ (by decide))
+  jeq_have_catch (catchT_FluorYield T Z 1 hZ (by decide))
+  jeq_have_catch (catchT_RadRate T Z (-36) hZ (by decide))
+  jeq_have_catch (catchT_FluorYield T Z 2 hZ (by decide))
+  jeq_have_catch (catchT_RadRate T Z (-64) hZ (by decide))
+  jeq_have_catch (catchT_FluorYield T Z 3 hZ (by decide))
+  jeq_have_catch (catchT_RadRate T Z (-90) hZ (by decide))
+  jeq_have_catch (catchT_CosKronTransProb T Z 8 hZ (by decide))
+  jeq_have_catch (catchT_CosKronTransProb T Z 11 hZ (by decide))
+  jeq_have_catch (catchT_CosKronTransProb T Z 13 hZ (by decide))
+  jeq_have_catch (catchT_CosKronTransProb T Z 14 hZ (by decide))
+  jeq_pure
+  jeq_auto
+
+theorem java_eq_c_PM5_auger_cascade_kissel (hk : KVecOk T Z 8) :
+    JRel (JGen.PM5_auger_cascade_kissel (JTables.ofC T) Z E PK PL1 PL2 PL3 PM1 PM2 PM3 PM4) (Gen.PM5_auger_cascade_kissel T Z E PK PL1 PL2 PL3 PM1 PM2 PM3 PM4 s) s := by
+  jeq_start JGen.PM5_auger_cascade_kissel Gen.PM5_auger_cascade_kissel JGen.get_kissel_offset
+  jeq_use_partial 8, hk
+  jeq_have_catch (catchT_CosKronTransProb T Z 8 hZ (by decide))
+  jeq_have_catch (catchT_CosKronTransProb T Z 11 hZ (by decide))
+  jeq_have_catch (catchT_CosKronTransProb T Z 13 hZ (by decide))
+  jeq_have_catch (catchT_CosKronTransProb T Z 14 hZ (by decide))
+  jeq_pure
+  jeq_auto
+
+theorem java_eq_c_PM5_full_cascade_kissel (hk : KVecOk T Z 8) :
+    JRel (JGen.PM5_full_cascade_kissel (JTables.ofC T) Z E PK PL1 PL2 PL3 PM1 PM2 PM3 PM4) (Gen.PM5_full_cascade_kissel T Z E PK PL1 PL2 PL3 PM1 PM2 PM3 PM4 s) s := by
+  jeq_start JGen.PM5_full_cascade_kissel Gen.PM5_full_cascade_kissel JGen.get_kissel_offset
+  jeq_use_partial 8, hk
+  jeq_have_catch (catchT_CosKronTransProb T Z 8 hZ (by decide))
+  jeq_have_catch (catchT_CosKronTransProb T Z 11 hZ (by decide))
+  jeq_have_catch (catchT_CosKronTransProb T Z 13 hZ (by decide))
+  jeq_have_catch (catchT_CosKronTransProb T Z 14 hZ (by decide))
+  jeq_pure
+  jeq_auto
+
+end phelpers
+
+
 end C19
 end Xrl
